@@ -225,6 +225,37 @@ CHECKS = {
         "without keys excluded; NaN by class; == demanded only when no "
         "documented loss applies",
         "DESIGN.md 4-C07", "wbemuri"),
+    "C13": (
+        "TLA+ declarative association semantics over stored association "
+        "copies (Assoc) with per-response clause sets; code-shaped two-phase "
+        "traversal + multi-namespace CreateInstance machine compared with it "
+        "by TLC for every repository, source and filter tuple; TLC-simulated "
+        "and seeded graphs built in the mock, every source x filter "
+        "combination called, responses judged by TLC",
+        "TLC proves that the transcribed _get_reference_instnames / "
+        "_get_associated_instancenames algorithm (with the shadow copies made "
+        "by create_multi_namespace_instance) equals the declarative definition "
+        "for all repositories with <=4 nodes in two namespaces and <=3 "
+        "association instances over binary, subclassed, ternary and "
+        "optional-end association classes, for every source and every filter "
+        "tuple, that the definition is symmetric and monotone in its filters, "
+        "and that five realistic wrong variants (break/continue, swapped "
+        "Role/ResultRole at instance and class level, missing shadow copy) are "
+        "refuted; repositories simulated by TLC and seeded random graphs (up "
+        "to 30 nodes in the thorough tier) are built in a real "
+        "FakedWBEMConnection through CreateInstance / MOF, and for every "
+        "stored source object and every combination of the four filters "
+        "(omitted, existing, differently cased, non-existing, wrong kind) the "
+        "traditional, Open+Pull and Iter operations are called; TLC evaluates "
+        "Names = paths of full, equality with the stored association "
+        "instances, stored values, filter monotonicity and symmetry on every "
+        "recorded response, and Names = names of full at class level.",
+        "small-scope in TLC; fixed 7-class schema; NULL ends only as absent "
+        "non-key references (the mock cannot store an explicit NULL reference "
+        "through CreateInstance/MOF; generated automatically once it can); no "
+        "dangling references; class-level result sets not judged; Open/Pull "
+        "and Iter variants on a seeded sample of the filter tuples",
+        "DESIGN.md 4-C13", "assoc"),
     "C10": (
         "TLA+ reference keyed map with set-valued status codes (RepoCore); "
         "code-shaped validation-order + dict/heap machine refinement in TLC; "
